@@ -53,6 +53,7 @@ type StepCase struct {
 	ChanCap    int         `json:"chan_cap"`
 	Mode       string      `json:"mode"` // exhaustive | seeded | limitgrid
 	GridForm   int         `json:"grid_form,omitempty"`
+	DynAt      int         `json:"dyn_at,omitempty"` // dynlimit: recursion depth at which a host function tightens the limit
 	Irqs       []Irq       `json:"irqs,omitempty"`
 	HostFaults []HostFault `json:"host_faults,omitempty"`
 	Debugger   bool        `json:"debugger"`
@@ -102,6 +103,7 @@ type stepRun struct {
 	hfCalls  int
 	anyCalls int
 	faultJournalLen int
+	dynLimit, dynDepth0 int
 	faulted  bool
 	hfVals   []interface{}
 	gid      string
@@ -160,12 +162,22 @@ func stepHook(o *otto.Otto, kind otto.VerifStepKind, node interface{}) {
 	if depth < 1 && r.viol == nil {
 		r.viol = viol("C18", "no_scope_while_running", "scope depth %d at step %d", depth, idx)
 	}
-	if lim := r.c.StackLimit; lim > 0 && depth > 2*lim+8 && r.viol == nil {
-		// every nesting level adds at least one function context and at most one
-		// global context, so a limit of L can never legitimately show more than 2L
-		r.viol = viol("C18", "stack_limit_not_enforced", "%d execution contexts nested at step %d under SetStackDepthLimit(%d)", depth, idx, lim)
-		r.abort = true
-		panic(harnessAbort{"depth"})
+	if lim := r.curLimit(); lim > 0 && r.viol == nil {
+		// documented semantics (SetStackDepthLimit, TestOttoSetStackDepthLimit):
+		// a limit of L admits L-1 nested function calls. Frames that existed when
+		// the limit was tightened mid-run stay, but nothing may be added on top.
+		// (L when the script was entered through Value.Call at rest: no global
+		// context below the first function then.)
+		f := r.vm.VerifFunctionDepth()
+		bound := lim
+		if r.dynLimit > 0 && r.dynDepth0 > bound {
+			bound = r.dynDepth0
+		}
+		if f > bound {
+			r.viol = viol("C18", "stack_limit_not_enforced", "%d nested function calls at step %d under SetStackDepthLimit(%d) (limit set mid-run at nesting %d: %v)", f, idx, lim, r.dynDepth0, r.dynLimit > 0)
+			r.abort = true
+			panic(harnessAbort{"depth"})
+		}
 	}
 	if r.anchors != nil {
 		if kind >= otto.VerifStepFor {
@@ -260,6 +272,13 @@ func (r *stepRun) reapSenders() {
 	r.senders = nil
 }
 
+func (r *stepRun) curLimit() int {
+	if r.dynLimit > 0 {
+		return r.dynLimit
+	}
+	return r.c.StackLimit
+}
+
 func (r *stepRun) lastHaltStep() int {
 	for _, p := range r.pend {
 		if p.delivered && strings.HasPrefix(p.irq.Kind, "panic_") {
@@ -302,6 +321,11 @@ func (r *stepRun) makeIrqFn(p *pendingIrq) func() {
 			if err := r.vm.Set("flag", true); err != nil && r.viol == nil {
 				r.viol = viol("C18", "irq_mutate_failed", "Set inside interrupt function: %v", err)
 			}
+		case "setlimit":
+			// the embedder tightens the limit while the script runs
+			r.dynLimit = 6 + int(p.irq.Step%9)
+			r.dynDepth0 = r.vm.VerifFunctionDepth()
+			r.vm.SetStackDepthLimit(r.dynLimit)
 		default:
 			p.payload = makePayload(p.irq.Kind)
 			r.halted = true
@@ -453,6 +477,13 @@ func (r *stepRun) install() {
 	rethrow := func(call otto.FunctionCall, err error) {
 		panic(call.Otto.MakeCustomError("HostError", err.Error()))
 	}
+	must(vm.Set("hsetlimit", func(call otto.FunctionCall) otto.Value {
+		l, _ := call.Argument(0).ToInteger()
+		r.dynLimit = int(l)
+		r.dynDepth0 = call.Otto.VerifFunctionDepth() // includes this host call itself
+		call.Otto.SetStackDepthLimit(int(l))
+		return otto.UndefinedValue()
+	}))
 	must(vm.Set("hcall", func(call otto.FunctionCall) otto.Value {
 		r.st.Probe("reenter_otto_call")
 		v, err := call.Otto.Call(call.Argument(0).String(), nil, call.Argument(1))
@@ -771,12 +802,37 @@ func postChecks(c *StepCase, res *RunResult) *Violation {
 	r.halted = false
 	lim := c.StackLimit
 	vm.SetStackDepthLimit(0) // harness scripts (read-back, continuation) are not subject to the case's limit
-	rbv, err, p, pv := protectedRun(vm, "__rb()")
+	// the very first script after the exit already relies on try/catch
+	rbv, err, p, pv := protectedRun(vm, "(function(){try{throw 0}catch(e0){return __rb()}})()")
 	if p || err != nil {
-		return viol("C18", "readback_failed", "err=%v panic=%v", err, pv)
+		return viol("C18", "first_script_after_exit_failed", "a script using try/catch right after the exit: err=%v panic=%v", err, pv)
 	}
 	if m := checkEffects(r.journal, rbv.String()); m != "" {
 		return viol("C18", "effects_inconsistent", "%s", m)
+	}
+	// the runtime must still be interruptible: an endless loop under a panicking watchdog
+	if vm.Interrupt != nil && cap(vm.Interrupt) > 0 {
+		probe := &pendingIrq{irq: Irq{Step: 3, Kind: "panic_error"}}
+		save := r.pend
+		r.pend = []*pendingIrq{probe}
+		r.step, r.abort, r.overrun, r.halted = 0, false, false, false
+		r.maxSteps = deliveryBound + 64
+		curStep = r
+		r.active = true
+		_, _, pp, ppv := protectedRun(vm, "for(;;){var zz=1}")
+		r.active = false
+		curStep = nil
+		r.pend = save
+		if !probe.delivered || !pp || !payloadEqual(ppv, probe.payload) {
+			return viol("C18", "not_interruptible_after_exit", "an endless loop run after the exit: watchdog delivered=%v, Run panicked=%v with %v", probe.delivered, pp, ppv)
+		}
+		r.halted = false
+		for len(vm.Interrupt) > 0 {
+			<-vm.Interrupt
+		}
+		if d, l := vm.VerifScopeDepth(), vm.VerifLabelCount(); d != 0 || l != 0 {
+			return viol("C18", "not_at_rest", "after the second interrupted script: scope depth %d, labels %d", d, l)
+		}
 	}
 	// continuation: later scripts run normally
 	cv, err, p, pv := protectedRun(vm, contSrc)
@@ -795,6 +851,9 @@ func postChecks(c *StepCase, res *RunResult) *Violation {
 	}
 	if m := checkEffects(r.journal, rbv.String()); m != "" {
 		return viol("C18", "effects_inconsistent", "after continuation: %s", m)
+	}
+	if r.dynLimit > 0 {
+		lim = r.dynLimit
 	}
 	if lim > 0 {
 		vm.SetStackDepthLimit(lim)
@@ -959,7 +1018,7 @@ func judgeHost(c *StepCase, r0, r1 *RunResult) *Violation {
 // ---------------------------------------------------------------------------
 // case generation
 
-var irqKinds = []string{"noop", "panic_error", "panic_string", "mutate", "panic_int", "panic_struct", "panic_ptr"}
+var irqKinds = []string{"noop", "panic_error", "panic_string", "mutate", "panic_int", "panic_struct", "panic_ptr", "setlimit"}
 var hostKinds = []string{"go_string", "go_error", "js_type", "js_custom", "go_int", "go_struct"}
 var anchors = []string{"abs", "after_b", "loop_head", "deep", "labelled", "frac"}
 
@@ -970,7 +1029,7 @@ func genStepCase(t *rapid.T, tier string) *StepCase {
 	if rapid.IntRange(0, 2).Draw(t, "mode") == 2 {
 		c.Mode = "seeded"
 	}
-	c.ClassB = rapid.IntRange(0, 3).Draw(t, "classB") == 3
+	c.ClassB = rapid.IntRange(0, 2).Draw(t, "classB") == 2
 	if rapid.IntRange(0, 2).Draw(t, "limit?") > 0 {
 		c.StackLimit = rapid.IntRange(3, 40).Draw(t, "limit")
 	}
@@ -1132,7 +1191,64 @@ func (e stepEngine) Preflight(st *Stats) (*Violation, interface{}) {
 		}
 	}
 	st.Probe("limit_grid_cells_enumerated")
+	for f := 0; f < nf; f++ {
+		if !strings.Contains(recursionForms("r")[f], "n+1") {
+			continue
+		}
+		for _, d0 := range []int{1, 5, 11, 20} {
+			for _, L := range []int{3, 7, 12} {
+				c := &StepCase{Engine: "stepsim", Mode: "dynlimit", GridForm: f, StackLimit: L, DynAt: d0, ChanCap: 1}
+				if v, rc, _ := e.Exec(c, st); v != nil {
+					return v, rc
+				}
+			}
+		}
+	}
+	st.Probe("dynamic_limit_grid_cells_enumerated")
 	return nil, nil
+}
+
+// execDynLimit: the limit is tightened by a host function while a recursion
+// is already d0 levels deep; nothing may be added on top of what is then
+// admitted, and the recursion must end in a RangeError the script can catch.
+func execDynLimit(c *StepCase, st *Stats) (*Violation, interface{}, bool) {
+	form := recursionForms("r")[c.GridForm]
+	cc := *c
+	cc.Entry = "run"
+	cc.Decls = "var D=0,K=-1;function r(n){D++;if(n==" + strconv.Itoa(c.DynAt) + ")hsetlimit(" + strconv.Itoa(c.StackLimit) + ");if(n>=90)return 0;return " + form + ";}\n"
+	cc.Body = "try{r(0)}catch(re){K=(re instanceof RangeError)?1:0;}emit('r',D,K);\n"
+	cc.StackLimit = 0
+	st.Fault("stack_limit_set_mid_run")
+	st.NonTrivial++
+	st.Sig(hashStr("dynlimit", form, strconv.Itoa(c.DynAt), strconv.Itoa(c.StackLimit)))
+	r1 := execRun(&cc, nil, true, st, false)
+	cc.Mode, cc.StackLimit = "dynlimit", c.StackLimit
+	fail := func(class, f string, a ...interface{}) (*Violation, interface{}, bool) {
+		return viol("C18", class, "recursion form `%s`, limit %d set by a host function at depth %d: "+f, append([]interface{}{form, c.StackLimit, c.DynAt}, a...)...), c, true
+	}
+	if r1.run.viol != nil {
+		return r1.run.viol, c, true
+	}
+	if r1.run.overrun {
+		return fail("stack_limit_not_enforced", "recursion did not stop within %d steps", r1.Steps)
+	}
+	if r1.Panicked {
+		return fail("foreign_panic", "Run panicked with %T(%v)", r1.PanicVal, r1.PanicVal)
+	}
+	k := -2
+	for _, e := range r1.Journal {
+		if e.Tag == "r" {
+			k = e.Kind
+		}
+	}
+	hostForm := strings.Contains(form, "hrun") || strings.Contains(form, "hcall") || strings.Contains(form, "hvcall") || strings.Contains(form, "heval") || strings.Contains(form, "hobj")
+	if !hostForm && k != 1 {
+		return fail("limit_error_not_catchable", "the script's catch clause did not receive a RangeError (K=%d, value %s, err %q)", k, r1.Value, r1.Err)
+	}
+	if v := postChecks(&cc, r1); v != nil {
+		return v, c, true
+	}
+	return nil, nil, true
 }
 
 func gridCase(c *StepCase, L int) *StepCase {
@@ -1202,6 +1318,9 @@ func (stepEngine) Exec(ci interface{}, st *Stats) (*Violation, interface{}, bool
 	c := ci.(*StepCase)
 	if c.Mode == "limitgrid" {
 		return execLimitGrid(c, st)
+	}
+	if c.Mode == "dynlimit" {
+		return execDynLimit(c, st)
 	}
 	st.Cases++
 	var r0 *RunResult
